@@ -94,7 +94,7 @@ class C17(Prop):
         return [(s, t) for s, tags in step_names(shape) for t in tags]
 
     def gen(self, rng, tier):
-        nh, nc, nd, nt = {"quick": (220, 20, 8, 24), "thorough": (2500, 240, 80, 400),
+        nh, nc, nd, nt = {"quick": (160, 20, 8, 24), "thorough": (2500, 240, 80, 400),
                           "extended": (800, 80, 30, 150)}[tier]
         cases = []
         for _ in range(nh):
